@@ -373,6 +373,14 @@ func cmdCheck(prop, tier string) int {
 		}
 	}
 	wall := time.Since(start).Seconds()
+	// the assignment matrix of Sim E is reported on its own (and only for C04, whose reach measure it is)
+	cells := map[string]int64{}
+	for k, v := range total.Probes {
+		if strings.HasPrefix(k, "assign-cell.") {
+			cells[strings.TrimPrefix(k, "assign-cell.")] = v
+			delete(total.Probes, k)
+		}
+	}
 	cov := map[string]interface{}{
 		"evaluations":         total.Evaluations,
 		"distinct_nontrivial": len(total.NonTrivial),
@@ -391,6 +399,9 @@ func cmdCheck(prop, tier string) int {
 		"shrink_candidates":   total.Shrunk,
 		"exhaustive":          false,
 		"known_findings_hit":  keysOf(seenKnown),
+	}
+	if prop == "C04" {
+		cov["assignment_matrix"] = map[string]interface{}{"what": "cells (path shape . destination Go type . source type . form) exercised by applied assignments", "distinct_cells": len(cells), "cells": cells}
 	}
 	if c.ExhaustNote != "" {
 		cov["enumeration_note"] = c.ExhaustNote
